@@ -224,6 +224,137 @@ pub fn private_tokens(sink: &mut Sink, cfg: &str, r: &mut Rng, thorough: bool) {
     }
 }
 
+/// JSON string literal (bytes) whose decoded content is `content`: `"`, `\` and control characters escaped; `style` 1 spells
+/// every ASCII byte that is not alphanumeric as `\u00XX`, style 2 uses the short escapes and leaves the rest raw
+fn json_lit(content: &[u8], style: u8) -> Vec<u8> {
+    let mut o = vec![b'"'];
+    for &c in content {
+        match c {
+            b'"' if style != 1 => o.extend_from_slice(b"\\\""),
+            b'\\' if style != 1 => o.extend_from_slice(b"\\\\"),
+            b'\n' if style != 1 => o.extend_from_slice(b"\\n"),
+            b'\t' if style != 1 => o.extend_from_slice(b"\\t"),
+            b'\r' if style != 1 => o.extend_from_slice(b"\\r"),
+            c if c < 0x20 || (style == 1 && c < 0x80 && !c.is_ascii_alphanumeric()) => o.extend_from_slice(format!("\\u{:04x}", c).as_bytes()),
+            c => o.push(c),
+        }
+    }
+    o.push(b'"'); o
+}
+
+/// The RawValue token (`raw_value`): an object whose first key decodes to `raw::TOKEN` must hold ONE string, and the decoded
+/// content of that string is parsed as a complete JSON text by a fresh `from_str` (fresh recursion budget, the token readings
+/// apply again inside). String contents: JSON texts of every kind, whitespace-padded, multi-line, invalid, empty, truncated,
+/// nested token objects of both kinds (well- and ill-shaped, doubly nested), escapes in the content, invalid UTF-8 and lone
+/// surrogates, nesting 126..129 INSIDE the string (also below 126 outer containers); every document shape of `private_tokens`;
+/// truncations; random recombination. Tags `raw-token`, `raw-token-cut`, `raw-token-deep`, `raw-token-rand`.
+pub fn raw_tokens(sink: &mut Sink, cfg: &str, r: &mut Rng, thorough: bool) {
+    const NUM: &str = "$serde_json::private::Number";
+    const RAW: &str = "$serde_json::private::RawValue";
+    let toks: [&str; 5] = [RAW, "\\u0024serde_json::private::RawValue", "$serde_json::private::\\u0052awValu\\u0065", NUM, "$serde_json::private::RawValu"];
+    let rawobj = |content: &[u8]| -> Vec<u8> { let mut d = format!("{{\"{}\":", RAW).into_bytes(); d.extend(json_lit(content, 0)); d.push(b'}'); d };
+    let numobj = |content: &[u8]| -> Vec<u8> { let mut d = format!("{{\"{}\":", NUM).into_bytes(); d.extend(json_lit(content, 0)); d.push(b'}'); d };
+    let mut contents: Vec<Vec<u8>> = vec![];
+    for c in ["1", "-0", "1.5e3", "1e400", "123456789012345678901234567890", "null", "true", "false", "\"s\"", "\"a\\\"b\\\\\"", "\"\\u00e9\\ud83d\\ude00\"", "[]", "[1,2]", "{}",
+              "{\"a\":1}", "{\"a\":[1,{\"b\":null}],\"a\":2}", "{\"b\":1,\"a\":2}",
+              " 1 ", "\n[1,\n2]\n", "\t{ \"a\" : 1 }\r\n", "  \"x\"  ",
+              "abc", "1 2", "[1,]", "{\"a\"}", "{\"a\":1,}", "tru", "+1", "01", "\"abc", "[", "]", "1e", "-", "nul", "{\"a\":1}}", "[1]x", "1,", "{", "{\"a\":",
+              "", " ", "\n", "\n\n  ", "[1,\n 2,\n x]", "\n\n\"a\nb\"", "[\"\\ud800\"]", "\"\\x\"", "1.", "-x", "1ex5",
+              "{\"$serde_json::private::RawValue\":1}", "{\"$serde_json::private::RawValue\":[ ]}", "{\"$serde_json::private::RawValue\":\"1\",\"b\":2}",
+              "{\"$serde_json::private::RawValue\":tru}", "{\"$serde_json::private::RawValue\":\"1\"", "{\"$serde_json::private::RawValue\" \"1\"}",
+              "{\"$serde_json::private::Number\":1}", "{\"a\":1,\"$serde_json::private::RawValue\":\"x\"}"] {
+        contents.push(c.as_bytes().to_vec());
+    }
+    // nested token objects of both kinds, one and two levels down, well- and ill-shaped, with newlines (inner line / column)
+    for inner in ["1", "[1, 2]", "x", "", " {\"a\" : \"b\"} ", "\n\n1 x"] {
+        contents.push(rawobj(inner.as_bytes()));
+        contents.push(numobj(inner.as_bytes()));
+        contents.push(rawobj(&rawobj(inner.as_bytes())));
+        contents.push(rawobj(&numobj(inner.as_bytes())));
+        let mut a = b"[\n".to_vec(); a.extend(rawobj(inner.as_bytes())); a.extend_from_slice(b",\n2]"); contents.push(a);
+        let mut a = b"\n {\"k\":".to_vec(); a.extend(rawobj(&rawobj(inner.as_bytes()))); a.extend_from_slice(b"}"); contents.push(a);
+    }
+    contents.push(vec![b'"', 0xff, b'"']); contents.push(vec![0xc3, 0xa9]); contents.push(vec![b'"', 0xc3, 0xa9, b'"']); contents.push(vec![b'[', 0x01, b']']);
+    let mut bodies: Vec<Vec<u8>> = vec![];
+    for c in contents.iter() {
+        bodies.push(json_lit(c, 0));
+        if c.len() < 24 { bodies.push(json_lit(c, 1)); }
+    }
+    // the content held by a string literal that is itself not well-formed: invalid UTF-8 raw, lone surrogate, bad escape, control character
+    for b in [&b"\"\xff\""[..], b"\"1\xc3\"", b"\"\\ud800\"", b"\"\\udc00x\"", b"\"1\\x\"", b"\"1\x011\"", b"\"\\ud83d\\ude00\"", b"\"[1,\\u00322]\"", b"\"\\\"\\\\u0031\\\"\""] {
+        bodies.push(b.to_vec());
+    }
+    let cat = |parts: &[&[u8]]| -> Vec<u8> { parts.concat() };
+    for tok in toks.iter() {
+        let t = tok.as_bytes();
+        for body in bodies.iter() {
+            let docs: [Vec<u8>; 13] = [
+                cat(&[b"{\"", t, b"\":", body, b"}"]), cat(&[b" { \"", t, b"\" : ", body, b" } "]), cat(&[b"[{\"", t, b"\":", body, b"}]"]),
+                cat(&[b"{\"a\":1,\"", t, b"\":", body, b"}"]), cat(&[b"{\"k\":{\"", t, b"\":", body, b"}}"]),
+                cat(&[b"\n{\n\"", t, b"\"\n:\n", body, b"\n}\n"]), cat(&[b"[1,\r\n {\t\"", t, b"\" :\n\n  ", body, b" \n} ,2]"]),
+                cat(&[b"{\"", t, b"\":", body, b",\"", t, b"\":", body, b"}"]), cat(&[b"{\"", t, b"\":", body, b"}{\"", t, b"\":", body, b"}"]),
+                cat(&[b"{\"", t, b"\":", body, b" ,}"]), cat(&[b"{\"", t, b"\":", body, b"]"]), cat(&[b"{\"", t, b"\" ", body, b"}"]),
+                cat(&[b"{\"", t, b"\":", body, b" x"])];
+            for doc in docs.iter() { emit(sink, cfg, doc, r, "raw-token"); }
+        }
+    }
+    // every truncation of some documents: EOF classes in every phase, also inside the nested text's string
+    let cut_contents: [&[u8]; 6] = [b"1", b"[1, 2]", b"x", b"{\"a\":\"b\"}", b"\n\ntru", b"{\"$serde_json::private::RawValue\":\"[]\"}"];
+    for tok in [RAW, "\\u0024serde_json::private::RawValue"] {
+        for c in cut_contents.iter() {
+            for doc in [cat(&[b"{\"", tok.as_bytes(), b"\":", &json_lit(c, 0), b"}"]), cat(&[b"[ {\n\"", tok.as_bytes(), b"\"\n : ", &json_lit(c, 2), b"\n } ]"])] {
+                let lo = if thorough { 0 } else { doc.iter().position(|&x| x == b':').unwrap_or(0).saturating_sub(3) };
+                for cut in lo..doc.len() { emit(sink, cfg, &doc[..cut], r, "raw-token-cut"); }
+            }
+        }
+    }
+    // the nested `from_str` has its own recursion budget: `din` containers INSIDE the string, the token object being the
+    // `dout`-th container of the document
+    for dout in [1usize, 2, 100, 127, 128, 129] {
+        for din in [1usize, 100, 126, 127, 128, 129] {
+            for mix in 0..2 {
+                let nest = |d: usize, inner: &[u8]| -> Vec<u8> {
+                    let mut open = vec![]; let mut close = vec![];
+                    for i in 0..d {
+                        let obj = match mix { 0 => false, _ => i % 2 == 0 };
+                        if obj { open.extend_from_slice(b"{\"a\":"); close.insert(0, b'}'); } else { open.push(b'['); close.insert(0, b']'); }
+                    }
+                    cat(&[&open, inner, &close])
+                };
+                for inner in [&b"1"[..], b"", b"{\"$serde_json::private::RawValue\":\"[[1]]\"}"] {
+                    let content = nest(din, inner);
+                    emit(sink, cfg, &nest(dout - 1, &rawobj(&content)), r, "raw-token-deep");
+                    if dout <= 2 && din >= 126 { emit(sink, cfg, &nest(dout - 1, &rawobj(&rawobj(&content))), r, "raw-token-deep"); }
+                }
+            }
+        }
+    }
+    // random recombination
+    let n = if thorough { 20000 } else { 1500 };
+    let ws: [&str; 6] = ["", " ", "\n", "\r\n", "\t ", " \n\n "];
+    let plain: [&[u8]; 8] = [b"1", b"null", b"[ ]", b"{}", b"tru", b"-", b"\"1\" , \"b\" : 2", b"\"1\" x"];
+    for _ in 0..n {
+        let mut doc: Vec<u8> = vec![];
+        let arr = r.chance(1, 3);
+        if arr { doc.push(b'['); doc.extend_from_slice(r.pick(&ws).as_bytes()); }
+        doc.push(b'{'); doc.extend_from_slice(r.pick(&ws).as_bytes());
+        let members = 1 + r.below(3);
+        for m in 0..members {
+            let key = if r.chance(2, 3) { *r.pick(&toks) } else { *r.pick(&["a", "", "$", "~"]) };
+            doc.push(b'"'); doc.extend_from_slice(key.as_bytes()); doc.push(b'"'); doc.extend_from_slice(r.pick(&ws).as_bytes());
+            doc.push(if r.chance(1, 30) { b' ' } else { b':' }); doc.extend_from_slice(r.pick(&ws).as_bytes());
+            if r.chance(1, 6) { let b: &[u8] = *r.pick(&plain[..]); doc.extend_from_slice(b); } else { let b: &Vec<u8> = r.pick(&bodies[..]); doc.extend_from_slice(b); }
+            doc.extend_from_slice(r.pick(&ws).as_bytes());
+            if m + 1 < members || r.chance(1, 15) { doc.push(b','); doc.extend_from_slice(r.pick(&ws).as_bytes()); }
+        }
+        if !r.chance(1, 20) { doc.push(b'}'); }
+        doc.extend_from_slice(r.pick(&ws).as_bytes());
+        if arr { if r.chance(1, 2) { doc.extend_from_slice(b",2"); } doc.push(b']'); }
+        if r.chance(1, 6) { let k = r.below(doc.len() + 1); doc.truncate(k); }
+        emit(sink, cfg, &doc, r, "raw-token-rand");
+    }
+}
+
 pub fn run(sink: &mut Sink, prop: &str, thorough: bool, seed: u64) {
     let mut r = Rng::new(seed);
     let cfg = cfg_tag();
@@ -256,6 +387,9 @@ pub fn run(sink: &mut Sink, prop: &str, thorough: bool, seed: u64) {
     // model are ordinary JSON object keys as far as RFC 8259 is concerned: objects whose FIRST key decodes to one of them
     if (prop == "C01" || prop == "C02") && (cfg!(feature = "ap") || cfg!(feature = "rv")) {
         private_tokens(sink, &cfg, &mut r, thorough);
+    }
+    if (prop == "C01" || prop == "C02") && cfg!(feature = "rv") {
+        raw_tokens(sink, &cfg, &mut r, thorough);
     }
     let toks = tokens();
     let n = if thorough { 4 } else { 3 };
